@@ -49,4 +49,28 @@ def tmMachine (env : C12.Env) (node : Nat) : Machine C12.Machine where
     | none => (m, [])
     | some ci => ((m.step env ci).1, (m.step env ci).2.map convAction)
 
+def Action.isSync : Action → Bool
+  | .triggerSync .. => true
+  | _ => false
+
+/-- juno's machine with the `TriggerSync` actions left out — what the driver's log/broadcast/commit
+logic sees (the harness keeps that action from the real driver, too; `driver.triggerSync` only
+starts a block fetch). The arguments of `TriggerSync` expose the machine's sync bookkeeping
+(`lastTriggerSync`), which a restart does not restore — see `tm_replaySafeUpTo_fails_sync_bookkeeping`. -/
+def tmMachineQuiet (env : C12.Env) (node : Nat) : Machine C12.Machine :=
+  { tmMachine env node with
+    step := fun m i =>
+      (((tmMachine env node).step m i).1, ((tmMachine env node).step m i).2.filter (fun a => !a.isSync)) }
+
+/-- The machine as it was BEFORE b154634: in the future-quorum branch of `ProcessPrecommit` the
+`WriteWAL` of the counted precommit was missing (the call returned only `TriggerSync`). A variant for
+regression witnesses; not the current code. -/
+def tmMachineBefore_b154634 (env : C12.Env) (node : Nat) : Machine C12.Machine :=
+  { tmMachine env node with
+    step := fun m i =>
+      let r := (tmMachine env node).step m i
+      match r.2 with
+      | [.writeWAL (.precommit ..), .triggerSync a b] => (r.1, [.triggerSync a b])
+      | _ => r }
+
 end Juno.C13
